@@ -113,9 +113,16 @@ def lean_build(targets: List[str]) -> Tuple[bool, str]:
     return rc == 0, out + err
 
 
+def props_modules(prop: str) -> List[str]:
+    """Theorem modules of a property: Props/Cxx.lean plus any Props/Cxx<Suffix>.lean (cross-property links)."""
+    d = LEAN_DIR / "OdcGeo" / "Props"
+    return [f"OdcGeo.Props.{f.stem}" for f in sorted(d.glob(f"{prop}*.lean"))]
+
+
 def lean_audit(prop: str) -> Tuple[List[Dict[str, Any]], str]:
     """List every theorem of namespace OdcGeo.<prop> with axioms and statement hash."""
-    src = f"import OdcGeo.Audit\nimport OdcGeo.Props.{prop}\n#audit_ns OdcGeo.{prop}\n"
+    imports = "".join(f"import {m}\n" for m in props_modules(prop))
+    src = f"import OdcGeo.Audit\n{imports}#audit_ns OdcGeo.{prop}\n"
     tmp = LEAN_DIR / f".audit_{prop}_{os.getpid()}.lean"
     tmp.write_text(src)
     try:
@@ -131,7 +138,7 @@ def lean_audit(prop: str) -> Tuple[List[Dict[str, Any]], str]:
 
 def lean_source_files(prop: str) -> List[Path]:
     """The project files in the import closure of the property's theorem file and driver."""
-    roots = [LEAN_DIR / "OdcGeo" / "Props" / f"{prop}.lean", LEAN_DIR / "Drivers" / f"{prop}.lean"]
+    roots = sorted((LEAN_DIR / "OdcGeo" / "Props").glob(f"{prop}*.lean")) + [LEAN_DIR / "Drivers" / f"{prop}.lean"]
     seen: Dict[Path, None] = {}
     todo = [r for r in roots if r.exists()]
     while todo:
@@ -275,7 +282,7 @@ class Run:
 
     # ---- finishing
     def proof_stage(self):
-        ok, log = lean_build([f"OdcGeo.Props.{self.prop}", f"driver_{self.prop.lower()}"])
+        ok, log = lean_build([*props_modules(self.prop), f"driver_{self.prop.lower()}"])
         if not ok:
             self.proof_break = "lake build failed:\n" + log[-3000:]
             return
@@ -304,7 +311,7 @@ class Run:
             self.proof_break = "audit found no theorem"
         if self.tier == "thorough" and not self.proof_break:
             rc, out, err2 = sh(
-                ["lake", "env", "leanchecker", f"OdcGeo.Props.{self.prop}"], cwd=LEAN_DIR, timeout=3000
+                ["lake", "env", "leanchecker", *props_modules(self.prop)], cwd=LEAN_DIR, timeout=3000
             )
             self.extra["leanchecker_rc"] = rc
             if rc != 0:
